@@ -52,7 +52,7 @@ class E1Prop(Prop):
     technique = ('Lean 4 model of the batch database state machine (one step per transaction) with theorems by induction over op lists + '
                  'differential correspondence: the real front-end / driver python functions and the verbatim stored procedures / triggers '
                  'run over the minisql interpreter, answers and full table dumps compared after every op, property oracle on the tables')
-    budget = {'quick': 120, 'thorough': 3000}
+    budget = {'quick': 200, 'thorough': 4000}
     search_budget = {'quick': 150, 'thorough': 3000}
     adversarial_share = 0.0
     dump_every = 1
@@ -125,9 +125,13 @@ class E1Prop(Prop):
                 res.n_ops = i + 1
                 obs.after(op, ans)
                 msg = check(obs) if check else None
+                diverged = len(w.sql_errors) > n_sql and w.sql_errors[-1][1] in oracles.DIVERGENT_SQL_ERRORS
                 if msg is not None:
                     res.failure = (i, msg[0], msg[1])
                     res.cut = i + 1
+                    if diverged:        # the model has no such failure: the failing op itself is not compared
+                        del res.lines[-2:]
+                        res.n_ops = i
                     break
                 if len(w.sql_errors) > n_sql and w.sql_errors[-1][1] in oracles.DIVERGENT_SQL_ERRORS:
                     # the service answered with a MySQL error the model does not know (e.g. the 1242 of is_job_cancelled):
@@ -210,4 +214,70 @@ class E1Prop(Prop):
         if not fails({**c, 'ops': ops}):
             return c
         ops = generic_shrink_list(ops, lambda o: fails({**c, 'ops': o}))
+        ops = self.shrink_specs(ops, lambda o: fails({**c, 'ops': o}))
+        ops = generic_shrink_list(ops, lambda o: fails({**c, 'ops': o}))
         return {**c, 'ops': ops}
+
+    @staticmethod
+    def shrink_specs(ops, fails):
+        """simplify inside the requests: drop the last job / group of the last update of a batch (adjusting createUpdate), drop parents,
+        move jobs to the root group, make them plain 1000 mcpu pool jobs"""
+        ops = list(ops)
+        changed = True
+        rounds = 0
+        while changed and rounds < 6:
+            changed = False
+            rounds += 1
+            # (1) last job / last group of the last update of each batch
+            ups = [(i, o.split()) for i, o in enumerate(ops) if o.startswith('createUpdate ')]
+            last = {}
+            for i, ws in ups:
+                last[ws[1]] = (i, ws)
+            for b, (i, ws) in last.items():
+                uid = sum(1 for _, w2 in ups if w2[1] == b and ups.index((_, w2)) <= ups.index((i, ws)))
+                for field, kind in ((3, 'insertJobs'), (4, 'insertGroups')):
+                    n = int(ws[field])
+                    if n == 0:
+                        continue
+                    cand = list(ops)
+                    w2 = list(ws)
+                    w2[field] = str(n - 1)
+                    if w2[3] == '0' and w2[4] == '0':
+                        continue
+                    cand[i] = ' '.join(w2)
+                    out = []
+                    for o in cand:
+                        x = o.split()
+                        if x[0] == kind and x[1] == b and x[2] == str(uid):
+                            specs = [t for t in x[4:] if t.split(';')[0] != str(n)]
+                            if not specs:
+                                continue
+                            o = ' '.join(x[:4] + specs)
+                        out.append(o)
+                    if out != ops and fails(out):
+                        ops = out
+                        changed = True
+                        break
+                if changed:
+                    break
+            if changed:
+                continue
+            # (2) simplify single job specs
+            for i, o in enumerate(ops):
+                x = o.split()
+                if x[0] != 'insertJobs':
+                    continue
+                for k in range(4, len(x)):
+                    f = x[k].split(';')
+                    for g in ([f[0], '', f[2]] + f[3:], [f[0], f[1], ''] + f[3:], f[:3] + ['0', '0'] + f[5:], f[:5] + ['0'] + f[6:],
+                              f[:6] + ['1000', '0']):
+                        if g == f:
+                            continue
+                        cand = list(ops)
+                        cand[i] = ' '.join(x[:k] + [';'.join(g)] + x[k + 1:])
+                        if fails(cand):
+                            ops = cand
+                            x = cand[i].split()
+                            f = g
+                            changed = True
+        return ops
